@@ -485,6 +485,29 @@ def carry_chain(cx, rule, crates, floor, only=None, exclude=()):
                 cx.violate(rule, '%s/%s' % (fn.short, inner[0]),
                            'carry chain: operand %d of %s in %s is `limb %s carry` computed without a flag; when the limb is all ones the wrap is lost and the flag of the outer operation is not the carry-out'
                            % (ai, last(fn.blocks[b]['term']['fn']['name']), fn.short, '+' if 'dd' in inner[0] else '-'), G.where(fn, b))
+        # the dual form: the carry-in is added AFTER the flagged operation with an unflagged add,
+        # `let (s, c2) = x.overflowing_add(y); limb = s.wrapping_add(c1)`: the wrap of `s + c1` (s all ones) is in no flag
+        for b, t in fn.calls():
+            if t['fn']['k'] != 'def' or last(t['fn']['name']) not in ('wrapping_add', 'wrapping_sub'):
+                continue
+            args = G.call_args(fn, P, b)
+            if len(args) != 2:
+                continue
+            cs = [i for i, x in enumerate(args) if _is_carry(x)]
+            if len(cs) != 1:
+                continue
+            other = strip(args[1 - cs[0]])
+            if not (other.k == 'field' and other.name == '0' and other.args and strip(other.args[0]).k == 'call'
+                    and last(strip(other.args[0]).name or '') in ('overflowing_add', 'overflowing_sub')):
+                continue
+            if fa is None:
+                fa = L.FnAnalysis(L.Analyzer(F), fn)
+            if fa.iv(other, b)[1] < L.ty_range((other.ty or 'u64'))[1]:
+                continue
+            bad += 1
+            cx.violate(rule, '%s/%s-after' % (fn.short, last(t['fn']['name'])),
+                       'carry chain: %s adds the carry-in to the result of a flagged %s with an unflagged %s; when that result is all ones the wrap is in no flag and the carry-out of the limb is lost'
+                       % (fn.short, last(strip(other.args[0]).name), last(t['fn']['name'])), G.where(fn, b))
     cx.floor(rule, 'sites', n, floor, 'overflowing_add/overflowing_sub sites examined for folded carries')
     if not bad:
         cx.hold(rule, 'chains', 'no overflowing_add/overflowing_sub among %d sites takes a `limb +/- carry` operand that was computed without its own flag' % n)
